@@ -42,7 +42,14 @@ async fn one_config(a: Args, idx: usize, proto: Proto, transport: Transport, per
     let cfg = Cfg::random(&mut rng, proto, n_users);
     let workers = *rng.pick(&[2usize, 4, 16]);
     let dir = work_dir(&a, &format!("c01-{idx}"));
-    let d = Deploy::new(cfg, transport, false, workers, &dir);
+    let mut d = Deploy::new(cfg, transport, false, workers, &dir);
+    // the server's configuration file is a list: a second entry of the same protocol, cipher and transport with credentials
+    // of its own (another port) is served by the same process, and a second client process talks to it
+    let d2 = {
+        let mut rng2 = Rng::derive(a.seed, 0xC01B, idx as u64);
+        Deploy::new(Cfg::random(&mut rng2, proto, n_users), transport, false, 2, &dir)
+    };
+    d.extra_server_entries.push(d2.server_entry());
     let tag = format!("c01-{idx}");
     let dd = d.clone();
     // half of the stream-transport configurations run through a forwarder that re-segments the client-server link
@@ -168,6 +175,31 @@ async fn one_config(a: Args, idx: usize, proto: Proto, transport: Transport, per
         ];
         rep.mon("full_duplex_bulk_flows_with_a_deaf_end", duplex.len() as u64);
         results.extend(run_batch(reg.clone(), &d, target.port, duplex, 2, Duration::from_secs(60)).await);
+    }
+    // flows through the server's SECOND entry (its own credentials), by a second client process
+    {
+        let (d2c, tag2) = (d2.clone(), format!("c01-{idx}-b"));
+        let client2 = tokio::task::spawn_blocking(move || {
+            let mut c = start_node("client", &d2c.client_json(), &d2c.dir, &tag2, d2c.workers, &d2c.log_level, None, None).map_err(|e| e.to_string())?;
+            wait_ready(&mut c, Some(d2c.client_port), None, Duration::from_secs(15))?;
+            Ok::<Node, String>(c)
+        })
+        .await
+        .unwrap();
+        match client2 {
+            Ok(_c2) => {
+                let mut specs2 = Vec::new();
+                for k in 0..6usize {
+                    let mut s = random_spec(&mut rng, (idx as u64) << 16 | (4100 + k) as u64, &kinds, false);
+                    s.kind = kinds[k % kinds.len()];
+                    s.closer = if k % 2 == 0 { Closer::TargetAfterAnswer } else { Closer::AppAfterAll };
+                    specs2.push(s);
+                }
+                rep.mon("flows_through_a_second_entry_of_the_server_configuration", specs2.len() as u64);
+                results.extend(run_batch(reg.clone(), &d2, target.port, specs2, 3, Duration::from_secs(30)).await);
+            }
+            Err(e) => rep.violation(format!("C01|{}|{}|second-entry|client-does-not-start", proto.name(), transport.name()), format!("a client for the server's second entry does not come up: {}", e.lines().next().unwrap_or("")), json!({"deploy": d2.describe(), "error": e})),
+        }
     }
     // the wait for the late answer does not occupy a slot: other configurations run meanwhile
     drop(permit);
